@@ -174,6 +174,24 @@ def cornersQ (g : Rat × Rat × Rat × Rat) : List (Rat × Rat) :=
 
 def showRectQ (r : RectQ) : String := s!"{q20 r.llx}:{q20 r.lly}:{q20 r.urx}:{q20 r.ury}"
 
+/-- the explicit domain of the OS/2 round trip (`Os2Dom` in Proofs/MetricsOs2), as a Boolean -/
+def os2InDom (o : Os2) : Bool :=
+  let i16 (x : Int) : Bool := decide (-32768 ≤ x ∧ x ≤ 32767)
+  decide (o.weightClass < 65536) && decide (o.widthClass < 65536) &&
+  (!o.isRegular || (!o.isBold && !o.isItalic)) &&
+  decide (o.firstCharIndex < 65536) && decide (o.lastCharIndex < 65536) &&
+  i16 o.ascent && i16 o.descent && i16 o.winAscent && i16 o.winDescent && i16 o.lineGap &&
+  i16 o.capHeight && i16 o.xHeight && decide (0 ≤ o.capHeight) && decide (0 ≤ o.xHeight) &&
+  i16 o.avgGlyphWidth && i16 o.familyClass &&
+  decide (o.sub.length = 10) && o.sub.all i16 &&
+  decide (o.panose.length = 10) && o.panose.all (· < 256) &&
+  decide (o.vendor.length = 4) &&
+  decide (o.unicodeRange.length = 4) && o.unicodeRange.all (· < 4294967296) &&
+  (match o.unicodeRange[1]? with
+   | some u => bit u 25 == (o.lastCharIndex == 0xFFFF)
+   | none => false) &&
+  decide (o.codePageRange < 18446744073709551616) && decide (0 ≤ o.permUse ∧ o.permUse ≤ 3)
+
 def prefixes : List String := ["metrics."]
 
 def handle (op : String) (fs : List (String × String)) : String :=
@@ -306,6 +324,11 @@ def handle (op : String) (fs : List (String × String)) : String :=
   else if op == "metrics.os2enc" then
     match parseOs2 fs with
     | some o => "ok:" ++ toHex (encodeOs2 o)
+    | none => "bad-case"
+  else if op == "metrics.os2rt" then
+    -- the property itself: Read (Encode info) = info for every info in the domain
+    match parseOs2 fs with
+    | some o => if os2InDom o then "ok:" ++ showOs2 o else "n/a"
     | none => "bad-case"
   else if op == "metrics.os2dec" then
     match getHex fs "b" with
